@@ -477,7 +477,7 @@ class Controller:
                 q.dirty = True
         return self.run()
 
-    def inject(self, msg, sender, rcpts, gated=True, env_extra=None, envcut=None):
+    def inject(self, msg, sender, rcpts, gated=True, env_extra=None, envcut=None, blocksig=None, hold_after=None):
         """run the real qmail-queue to completion (its calls interleave with the daemon's only through the chooser)"""
         import qqrun
         indir = os.path.join(self.tree.root, "in")
@@ -493,9 +493,13 @@ class Controller:
         if env_extra:
             e.update(env_extra)
         f0, f1 = open(mp, "rb"), open(ep, "rb")
-        po = subprocess.Popen([self.tree.bin("qmail-queue")], stdin=f0, stdout=f1, env=e, stderr=subprocess.DEVNULL)
+        # blocksig: the invoking program had these signals blocked (the mask is inherited across exec)
+        pre = (lambda: signal.pthread_sigmask(signal.SIG_BLOCK, set(blocksig))) if blocksig else None
+        po = subprocess.Popen([self.tree.bin("qmail-queue")], stdin=f0, stdout=f1, env=e, stderr=subprocess.DEVNULL, preexec_fn=pre)
         f0.close(); f1.close()
         self.popen[po.pid] = po
+        if hold_after is not None:
+            self.hold_after[po.pid] = hold_after      # a client that stalls: after that many calls it is granted nothing more
         self.expect.add(po.pid)
         self.emit({"c": "ctl", "op": "inject", "pid": po.pid, "sender": sender.hex(), "rcpts": [r.hex() for r in rcpts], "msglen": len(msg), "n": self.injn})
         return po
